@@ -125,16 +125,16 @@ ADDED5 = {
 # clauses added by seed round 6 (DESIGN.md §4)
 ADDED6 = {
  "C01": " (shared) A reference read under a lock is not used after the lock was released and taken again (L9).",
- "C02": " No ListBuckets implementation returns successfully from inside its loop; every operation has a way to succeed (R09.9).",
+ "C02": " No ListBuckets implementation returns successfully from inside its loop; every operation has a way to succeed (R09.9). No field of the front end, the fs/bolt backends or the metadata store is assigned while serving (a remembered last-read object is a cache).",
  "C04": " (shared) The walked fs listing is sorted by key after the walk.",
  "C06": " (shared) The object file is opened truncating.",
  "C07": " A reference read under a lock is not used after that lock was released and acquired again in the same function (L9).",
- "C08": " A failed body read never reaches the first mutation, whatever the error value (assumption reachability).",
+ "C08": " A failed body read never reaches the first mutation, whatever the error value (assumption reachability). Nothing is added to the metadata map after its size was measured.",
  "C09": " Lower bounds of `v + k` are used only where v is bounded above (no wrap-around).",
  "C10": " The containment sanitiser cleans the rooted key; the metadata store does not live below the buckets directory; bucket- and object-named parameters are not handed over in each other's place.",
  "C12": " (shared) Error discipline also over the four PutObject implementations that consume the decoded stream.",
  "C13": " Where the marker is the current version the version iterator is marked exhausted before Seek answers; the handler resets the parsed page only for an explicit empty key-marker.",
- "C15": " (shared) The fs metadata record name hashes the unmodified key.",
+ "C15": " (shared) The fs metadata record name hashes the unmodified key. loadMeta decodes only a non-empty record (a killed write leaves an empty one). No field of a stateless layer is assigned while serving.",
  "C16": " Each addressing option stores its argument unconditionally (total options).",
  "C17": " (shared) Key containment (rooted Clean fixpoint) and the metadata store outside the buckets directory: no bucket comes into being except through create-bucket.",
 }
